@@ -39,3 +39,11 @@ Theorem C06_other_conns : forall cfg s l s' i, step cfg s l = Some s' ->
   (l = LConn i \/ exists r, l = LHandler i r) -> forall j, j <> i -> nth_error (conns s') j = nth_error (conns s) j.
 Proof. exact c06_other_conns. Qed.
 Print Assumptions C06_other_conns.
+
+(* a per-request goroutine puts on the wire exactly what its handler writes: one
+   LDAPMessage per write step that reaches the client, nothing otherwise *)
+Theorem C06_handler_writes : forall cfg s c r c' e, handler_step cfg s c r = Some (c', e) ->
+  sent c' = sent c \/ (delivered c = true /\ sent c' = S (sent c) /\
+                       exists rest others, take_handler r (hs c) = Some (HWrite :: rest, others)).
+Proof. exact c06_handler_writes. Qed.
+Print Assumptions C06_handler_writes.
